@@ -28,6 +28,7 @@ cdef class BatchBase(futures.FutureBase):
     cdef public list items
     cdef public long long _total_time
     cdef public int _id
+    cdef public bint _flushing
     cdef dump_perf_stats(self, long long time_taken)
 
     cpdef bint is_flushed(self) except -1
